@@ -731,6 +731,13 @@ class Magnetization(MagicProperties):
         if val is not None:
             self.arrow.size = val
 
+    def as_dict(self, flatten=False, separator="."):
+        """returns recursively a nested dictionary with all properties objects of the class"""
+        # `size` is a deprecated alias of `arrow.size` and carries no state of its own
+        dict_ = super().as_dict(flatten=flatten, separator=separator)
+        dict_.pop("size", None)
+        return dict_
+
     @property
     def color(self):
         """Color properties showing the magnetization direction (for the plotly backend).
